@@ -333,3 +333,10 @@ package tchannel
 //@   ensures co.HealthChecks.FailuresToClose == 0 ==> r.HealthChecks.FailuresToClose == 5
 //@   ensures co.HealthChecks.FailuresToClose != 0 ==> r.HealthChecks.FailuresToClose == co.HealthChecks.FailuresToClose
 //@   property C19
+
+// "closed after the configured number of consecutive ping failures and not
+// earlier": the count a connection works with is never 0 -- an unset
+// FailuresToClose means the default (5), and that substitution is made for
+// every connection when it is created, whatever the channel's options say at
+// that moment (they can be changed through Channel.ConnectionOptions()).
+//@ structinv (c *Connection) established newConnection : c.opts.HealthChecks.FailuresToClose != 0
